@@ -112,11 +112,15 @@ CLAIMED = {
              "TraceGamma.tla: sample count = max(n, ceil((1.96 CV/p)^2)) decided with exact big-number arithmetic in TLA+, "
              "one fresh valid sample per chance alignment in order, requested kind of alignment for input and samples, "
              "observed/expected/gamma relations, approx_gamma_range, gamma <= 1, gamma = 1 for identical annotators; "
-             "sampler objects are reused across runs with other ground-truth sets.",
+             "sampler objects are reused across runs with other ground-truth sets. PyGamma.tla composes GammaRun with "
+             "Align's optimum and the exact count rule (refinement of GammaRun checked); every scenario TLC finishes "
+             "(input instance, scripted sampler output, n, precision, mode) is run through the real compute_gamma with a "
+             "scripted sampler and observed / chance sequence / count / gamma must equal the spec's exact values.",
         note="CV^2 enters TLC as a rational approximation (denominator <= 1e9) of the float the library computed from the "
              "logged first-batch disorders; a relative band of 1e-7 around the ceil is not judged. Named precision levels "
              "per the code's table (high 1%, medium 2%, low 10%).",
-        technique="TLC model checking of the concurrent run (GammaRun) + TLC trace validation of recorded runs (TraceGamma, BigNat)",
+        technique="TLC model checking of the concurrent run (GammaRun, PyGamma) + TLC-generated scenarios replayed into compute_gamma "
+                  "+ TLC trace validation of recorded runs (TraceGamma, BigNat)",
         design="4/C05"),
     "C06": dict(
         text="TLC checks on GammaRun.tla, over all interleavings and 1-3 workers, that the chance sequence is a function of the "
